@@ -715,8 +715,11 @@ class JumpGen:
             k = r.random()
             if k < 0.22:
                 out.append({'expr': {'name': r.choice(JVARS + JARGS), 'expr': self.expr()}})
-            elif k < 0.32:
+            elif k < 0.27:
                 out.append({'expr': {'expr': self.expr(1, calls=False)}})
+            elif k < 0.32:
+                # an unassigned expression that may hold calls anywhere (pointless only if it holds none)
+                out.append({'expr': {'expr': self.expr(0, calls=True)}})
             elif k < 0.42:
                 out.append({'expr': {'expr': {'function': {'name': r.choice(FUNCS + ['systemLog']), 'args': [self.expr(1)]}}}})
             elif k < 0.60:
@@ -762,6 +765,49 @@ class JumpGen:
 # ---------------------------------------------------------------------------------------------------------------------
 # streams
 # ---------------------------------------------------------------------------------------------------------------------
+
+def shape_exprs(depth, leaves):
+    """all expression trees of depth <= `depth` with at most `leaves` leaves over the small alphabet of lint-pointless-shapes"""
+    if leaves < 1:
+        return
+    yield 1, {'variable': 'n'}
+    yield 1, {'number': 1.0}
+    yield 1, {'function': {'name': 'bump', 'args': []}}
+    if depth <= 0:
+        return
+    for n, e in shape_exprs(depth - 1, leaves):
+        yield n, {'group': e}
+        yield n, {'unary': {'op': '-', 'expr': e}}
+        yield n, {'unary': {'op': '!', 'expr': e}}
+    for nl, left in shape_exprs(depth - 1, leaves - 1):
+        for nr, right in shape_exprs(depth - 1, leaves - nl):
+            for op in ('+', '&&'):
+                yield nl + nr, {'binary': {'op': op, 'left': left, 'right': right}}
+
+
+def pointless_shape_cases(depth, leaves):
+    bump = {'function': {'name': 'bump', 'statements': [
+        {'expr': {'name': 'count', 'expr': {'function': {'name': 'systemGlobalGet', 'args': [{'string': 'count'}, {'number': 0.0}]}}}},
+        {'expr': {'expr': {'function': {'name': 'systemGlobalSet', 'args': [
+            {'string': 'count'}, {'binary': {'op': '+', 'left': {'variable': 'count'}, 'right': {'number': 1.0}}}]}}}},
+        {'expr': {'expr': {'function': {'name': 'systemLog', 'args': [{'string': 'bump'}]}}}},
+        {'return': {'expr': {'number': 2.0}}}]}}
+    use_n = {'expr': {'expr': {'function': {'name': 'systemLog', 'args': [{'variable': 'n'}]}}}}
+    seen = set()
+    ix = 0
+    for _, e in shape_exprs(depth, leaves):
+        key = json.dumps(e, sort_keys=True)
+        if key in seen:
+            continue
+        seen.add(key)
+        ix += 1
+        top = [bump, {'expr': {'name': 'n', 'expr': {'number': 3.0}}}, {'expr': {'expr': e}}, use_n]
+        yield f'shape{ix}-top', {'statements': top}
+        if ix % 4 == 0:
+            body = [{'expr': {'name': 'n', 'expr': {'number': 3.0}}}, {'expr': {'expr': e}}, use_n]
+            yield f'shape{ix}-fn', {'statements': [bump, {'function': {'name': 'g', 'statements': body}},
+                                                   {'expr': {'expr': {'function': {'name': 'g', 'args': []}}}}]}
+
 
 def statement_paths(model):
     """Paths of all statements: (i,) top level, (i, j) statement j of the function at i, (i, j, k) one level deeper."""
@@ -913,6 +959,12 @@ def streams(ctx):
               'statements, includes; non-trivial = at least one warning',
               [(f'jump{i}', JumpGen(rng).model()) for i in range(ctx.scale(3500, 40000))])
 
+    run_cases(ctx, 'lint-pointless-shapes', 'ALL unassigned expression statements whose expression is a tree of depth <= 2 (thorough: 3) over '
+              '{variable, number, call bump(), group, unary -, unary !, binary + and &&} with at most 3 leaves, in a script that defines '
+              'bump (logs and counts), at top level and inside a function: pointless iff the tree holds no call; every reported '
+              'statement is deleted and the run compared (semantic oracle); non-trivial = the expression holds a call or a warning is '
+              'reported', pointless_shape_cases(ctx.scale(2, 3), 3), semantic_cap=100000)
+
     shipped = []
     inc_dir = os.path.join(os.path.dirname(fw.impl()['model'].__file__), 'include')
     for path in sorted(glob.glob(os.path.join(inc_dir, '*.bare'))):
@@ -937,7 +989,7 @@ def streams(ctx):
     run_cases(ctx, 'lint-nested', 'jump-level models in which function bodies may contain function statements (finding F19: lint does '
               'not look inside them); the model mirrors the non-descending behaviour; non-trivial = at least one warning', nested,
               semantic_cap=3)
-    for name in ('lint-corpus', 'lint-structured', 'lint-jump', 'lint-nested'):
+    for name in ('lint-corpus', 'lint-structured', 'lint-jump', 'lint-nested', 'lint-pointless-shapes'):
         ctx.streams[name].exhaustive = False
 
 
